@@ -122,6 +122,8 @@ func runC01(c *Ctx) {
 	c12PrefixLen(c) // CIDR containment with IPv4 as IPv4-mapped: key length rule shared with C12
 	c.R.Floor("PARSENUM", parseNumSites(c, "PARSENUM", []string{"component/routing"}, func(f string) bool { return f == "function_parser.go" || f == "matcher_builder.go" }), 2)
 	scanIsStateless(c, "SCAN", "control", "RoutingMatcher.Match", []string{"goodSubrule", "badRule", "must"})
+	// the program that is lowered is the optimizer pipeline's output: the merge guard (same outbound incl. mark/must) is an obligation here too
+	c04Merge(c)
 }
 
 // ---- (3) lowering -------------------------------------------------------------
